@@ -1059,6 +1059,8 @@ package desync
 //@   pure
 //@   ensures err == nil ==> adjChunks(r0.Chunks)
 
+//@ ghost var $flushed bool
+//@ ghost var $bw *bufio.Writer
 //@ func (i *Index) WriteTo
 //@   prop C04
 //@   requires adjChunks(i.Chunks)
@@ -1074,6 +1076,17 @@ package desync
 //@   oncall Encode: requires is($arg0, FormatTable) ==> as($arg0, FormatTable).Size == 18446744073709551615 && as($arg0, FormatTable).Type == CaFormatTable && \
 //@       tableMatches(i.Chunks, as($arg0, FormatTable).Items)
 //@   loop 1: invariant (len(fChunks) == len(i.Chunks) || len(fChunks) == $i) && offset == ite($i == 0, 0, i.Chunks[$i-1].Start + i.Chunks[$i-1].Size) && tableMatches(i.Chunks[:$i], fChunks[:$i])
+//# the encoder writes into a buffer in front of w: success is reported only if, after the last element was encoded,
+//# that buffer was flushed into w and the flush succeeded (a write fault of w - full device, closed pipe - surfaces);
+//# the buffered writer is made over w and is what the encoder writes to
+//@   ghost@entry $flushed = false
+//@   ghost@after:Encode $flushed = false
+//@   ghost@after:Flush $flushed = $r0 == nil
+//@   ghost@after:NewWriter $bw = $r0
+//@   oncall NewWriter: requires @C04 $arg0 == w
+//@   oncall NewFormatEncoder: requires @C04 $arg0 == $bw
+//@   oncall Flush: requires @C04 $recv == $bw
+//@   ensures @C04 r1 == nil ==> $flushed
 
 //# round trip at the level of the tables: reading back what WriteTo hands to the encoder yields the same chunks
 //@ lemma @C04 indexRoundTrip: forall a []IndexChunk, b []IndexChunk, t []FormatTableItem :: tableMatches(a, t) && tableMatches(b, t) ==> \
